@@ -24,6 +24,9 @@ Proof.
   - apply reachable_binv; exact Hfix.
 Qed.
 
+Lemma c11_bound_proof : C11_bound.
+Proof. intros pre C sched Hfix. now apply bound_core. Qed.
+
 Lemma c11_error_proof : C11_error.
 Proof.
   intros pre C sched Hfix s Hr.
